@@ -55,6 +55,32 @@ func c09Recover(f *Fix, repo string, items, tags, subjects []string, pol GCPolic
 		if len(vs) > 0 {
 			return vs
 		}
+		// a client that tags what the recovered store still has sends no blobs: every manifest of the universe is pushed
+		// under a new tag as it is, and one that is acknowledged is complete (a crash inside a collection leaves manifests
+		// whose blobs are already gone; those pushes are refused)
+		for _, n := range items {
+			it := f.Items[n]
+			if it == nil || !it.Manifest {
+				continue
+			}
+			t := "post-retag-" + strings.ToLower(n)
+			if r := w.PutManifest(repo, t, it.MT, it.Data); r.Status != 201 {
+				continue
+			}
+			for _, d := range f.deps(n) {
+				di := f.Items[d]
+				ok := w.Head("/v2/"+repo+"/blobs/"+di.Dig).Status == 200
+				if di.Manifest {
+					ok = w.HeadManifest(repo, di.Dig).Status == 200
+				}
+				if !ok {
+					vs = append(vs, h.V("tags-intact", "tag-acknowledged-after-recovery-points-at-incomplete-image", "after a crash inside %q and the recovery, PUT of %s under tag %s (no blobs sent) was acknowledged, but %s which it references is not served", interrupted, n, t, d))
+				}
+			}
+		}
+		if len(vs) > 0 {
+			return vs
+		}
 		// a complete tagged image (the policy of this check collects unreferenced blobs at once, also at Close)
 		for _, b := range []string{"c", "l1"} {
 			if r := w.PushBlob(repo, f.Items[b].Data, f.Items[b].Dig); r.Status != 201 {
